@@ -34,6 +34,8 @@ func main() {
 		os.Exit(cmdList(os.Args[2:]))
 	case "replay":
 		os.Exit(cmdReplay(os.Args[2:]))
+	case "optgen":
+		os.Exit(cmdOptgen(os.Args[2:]))
 	case "prelude":
 		fmt.Print("(set-logic ALL)\n" + Prelude() + "(check-sat)\n")
 	default:
